@@ -647,6 +647,57 @@ func c01Pen(c *Ctx, info *types.Info, render *FuncInfo, g *FG, rems []*Emission)
 	}
 }
 
+// c01StoreSite: an assignment that records a covered cell in the last-frame copy.
+type c01StoreSite struct {
+	as   *ast.AssignStmt
+	info *types.Info
+	fn   string
+}
+
+// c01IsNullStore: stores into screenLast.buf[row][col+i].
+func c01IsNullStore(info2 *types.Info) func(ast.Node) bool {
+	return func(n ast.Node) bool {
+		as, ok := n.(*ast.AssignStmt)
+		if !ok || len(as.Lhs) != 1 {
+			return false
+		}
+		ix, ok := as.Lhs[0].(*ast.IndexExpr)
+		if !ok {
+			return false
+		}
+		if !strings.HasPrefix(canonPath(info2, ix.X), "Vaxis.screenLast.buf") {
+			return false
+		}
+		_, isSum := unparen(ix.Index).(*ast.BinaryExpr)
+		return isSum
+	}
+}
+
+// c01NullStoreSites: the covered-cell stores of render (graph g) itself and of the same-package helpers it calls.
+func c01NullStoreSites(c *Ctx, info *types.Info, g *FG, fnName string) ([]c01StoreSite, map[*types.Func]bool) {
+	isNullStore := c01IsNullStore
+	var allStores []c01StoreSite
+	helperWithStore := map[*types.Func]bool{}
+	for _, h := range g.Find(isNullStore(info)) {
+		allStores = append(allStores, c01StoreSite{h.Node.(*ast.AssignStmt), info, fnName})
+	}
+	for _, h := range g.Calls(func(fn *types.Func, _ *ast.CallExpr) bool { return fn != nil && c.P.FuncOfObj(fn) != nil }) {
+		fn := calleeOf(info, h.Node.(*ast.CallExpr))
+		hf := c.P.FuncOfObj(fn)
+		if hf == nil || hf.Decl.Body == nil || helperWithStore[fn] {
+			continue
+		}
+		ast.Inspect(hf.Decl.Body, func(n ast.Node) bool {
+			if isNullStore(hf.Pkg.TypesInfo)(n) {
+				helperWithStore[fn] = true
+				allStores = append(allStores, c01StoreSite{n.(*ast.AssignStmt), hf.Pkg.TypesInfo, hf.Name})
+			}
+			return true
+		})
+	}
+	return allStores, helperWithStore
+}
+
 func c01Covered(c *Ctx, info *types.Info, render *FuncInfo, g *FG, rems []*Emission, cellLoop *c01CellLoop) {
 	// the column variable: the index of the cell loop (whatever it is called)
 	isCol := func(e ast.Expr) bool {
@@ -659,48 +710,8 @@ func c01Covered(c *Ctx, info *types.Info, render *FuncInfo, g *FG, rems []*Emiss
 		}
 		return id.Name == "col"
 	}
-	// stores into screenLast.buf[row][col+i]: in render itself or in a same-package helper it calls
-	isNullStore := func(info2 *types.Info) func(ast.Node) bool {
-		return func(n ast.Node) bool {
-			as, ok := n.(*ast.AssignStmt)
-			if !ok || len(as.Lhs) != 1 {
-				return false
-			}
-			ix, ok := as.Lhs[0].(*ast.IndexExpr)
-			if !ok {
-				return false
-			}
-			if !strings.HasPrefix(canonPath(info2, ix.X), "Vaxis.screenLast.buf") {
-				return false
-			}
-			_, isSum := unparen(ix.Index).(*ast.BinaryExpr)
-			return isSum
-		}
-	}
-	type storeSite struct {
-		as   *ast.AssignStmt
-		info *types.Info
-		fn   string
-	}
-	var allStores []storeSite
-	helperWithStore := map[*types.Func]bool{}
-	for _, h := range g.Find(isNullStore(info)) {
-		allStores = append(allStores, storeSite{h.Node.(*ast.AssignStmt), info, render.Name})
-	}
-	for _, h := range g.Calls(func(fn *types.Func, _ *ast.CallExpr) bool { return fn != nil && c.P.FuncOfObj(fn) != nil }) {
-		fn := calleeOf(info, h.Node.(*ast.CallExpr))
-		hf := c.P.FuncOfObj(fn)
-		if hf == nil || hf.Decl.Body == nil || helperWithStore[fn] {
-			continue
-		}
-		ast.Inspect(hf.Decl.Body, func(n ast.Node) bool {
-			if isNullStore(hf.Pkg.TypesInfo)(n) {
-				helperWithStore[fn] = true
-				allStores = append(allStores, storeSite{n.(*ast.AssignStmt), hf.Pkg.TypesInfo, hf.Name})
-			}
-			return true
-		})
-	}
+	isNullStore := c01IsNullStore
+	allStores, helperWithStore := c01NullStoreSites(c, info, g, render.Name)
 	// a node "nulls covered cells" if it is such a store or a call of a helper that contains one
 	isNulling := func(n ast.Node) bool {
 		if isNullStore(info)(n) {
@@ -719,9 +730,20 @@ func c01Covered(c *Ctx, info *types.Info, render *FuncInfo, g *FG, rems []*Emiss
 	}
 	for i, st := range allStores {
 		as := st.as
-		cl, ok := unparen(as.Rhs[0]).(*ast.CompositeLit)
-		zero := ok && len(cl.Elts) == 0 && typeName(st.info.TypeOf(cl)) == modPath+".Cell"
-		c.check(zero, "C01.i", fmt.Sprintf("%s/covered cell #%d stored as the zero Cell", st.fn, i+1), as.Pos(), "Cell{}", "the cell covered by a wide glyph is recorded as "+types.ExprString(as.Rhs[0])+" instead of being forgotten: the frame then relies on what the terminal leaves of a half-overwritten wide glyph")
+		// the stored value evaluates to the zero Cell (Cell{}, a `var zero Cell`, an unmodified package-level
+		// zero value, Cell{Style: Style{}} ...)
+		// "forgotten" = the record carries no content: every exported field (grapheme, width, style) is zero. Whether
+		// the record can still be mistaken for a cell the screen holds (the zero Cell can) is C01.m's question; a
+		// marker in an unexported field is what answers it, and is not content.
+		zv := (&c01CellEval{c: c}).eval(st.info, as.Rhs[0])
+		zero := typeName(st.info.TypeOf(as.Rhs[0])) == modPath+".Cell" && len(zv.unknown) == 0
+		for f := range zv.fields {
+			parts := strings.Split(f, ".")
+			if ast.IsExported(parts[len(parts)-1]) {
+				zero = false
+			}
+		}
+		c.check(zero, "C01.i", fmt.Sprintf("%s/covered cell #%d stored as the zero Cell", st.fn, i+1), as.Pos(), "a Cell without content", "the cell covered by a wide glyph is recorded as "+types.ExprString(as.Rhs[0])+" instead of being forgotten: the frame then relies on what the terminal leaves of a half-overwritten wide glyph")
 	}
 	// column advance: `skip := <advance function>(…cell…)`, where the advance function is whichever repository
 	// function render calls with a Cell argument for an int that is then added to the column
